@@ -74,6 +74,17 @@ CLAIMS = {
         "unit conversions 1, 3.893793e10, 3.893793e8 accepted.",
         "DESIGN.md section 3, C11",
     ),
+    "C06": (
+        "table folding of update_fns; call/flow facts on partially evaluated runs; structural audit of eko.matchings",
+        "Decides: update_fns folded over five schemes x NfFF 3..6 equals the documented threshold/zero-mass table (nf == NfFF at every Q2 in "
+        "fixed-flavour schemes, ZM-VFNS untouched, unknown scheme rejected); on partially evaluated runs the atlas holds (m_q k_q)^2 in order "
+        "c,b,t with origin (Q0^2, nf0), nf_default is evaluated exactly once per point with that point's Q2 and that atlas, ZM-VFNS operators are "
+        "identical for different NfFF and free of mass/threshold symbols, no operator contains threshold-ratio symbols, every beta coefficient "
+        "of the scale-variation terms is evaluated at that same nf; the installed eko source has nf = 2 + digitize(Q2, [0]+scales+[inf]) with "
+        "right=False (scale^2 <= Q2 counts as active). NOT decided: floating-point behaviour one ulp around a threshold.",
+        "Trusted: CPython ast; yadsa partial evaluator; eko.matchings (audited structurally each run); mc kc < mb kb < mt kt.",
+        "DESIGN.md section 3, C06",
+    ),
     "C07": (
         "normal-form identities between partially evaluated operators (additivity over parts, heavyness, coupling restrictions)",
         "Decides additivity as polynomial identities between partially evaluated operators, for every order key (scale-variation keys "
